@@ -448,7 +448,8 @@ def run(rep, tier, seed, selftest):
             badc = json.loads(json.dumps(mixed[:3]))
             badc[1]["out"][0]["v"][0] = (badc[1]["out"][0]["v"][0] + 1) % 256
             mf.check_packed_cells(probe3, "cmix", "cmix", badc, 1, seed, "C10-selftest-cmix")
-        selftests["corrupted_mixed_constant_detected"] = len(probe3.violations) == 1
+        # (one violation per variant of the program that holds the corrupted cell: canonical text, layout, second module)
+        selftests["corrupted_mixed_constant_detected"] = len(probe3.violations) >= 1
         for f in probe3.violations:
             if os.path.exists(f):
                 os.remove(f)
